@@ -65,8 +65,8 @@ def replay_c13_threshold(spec):
     from fractions import Fraction
 
     import numpy as np
-    import symmray as sr
 
+    from bounded.common import sr  # the tree under check (SYMMRAY_REPO)
     from bounded.oracles_linalg import kept_set
 
     w = spec.get("witness") or {}
@@ -103,7 +103,27 @@ def replay_c13_threshold(spec):
     return {"reproduced": False, "note": "the real code keeps what the rule permits on the solver's values (floating point may differ from the real-number model)", "input": inp}
 
 
+def replay_key_covers(spec):
+    """frames.key_covers: the injectivity assumption on `hasher` is tested on the real function with keys
+    that differ only by the charges -1 / -2 (equal CPython hashes)."""
+    if "hasher" not in spec.get("obligation", ""):
+        return {"reproduced": False, "note": "no native replay for this structural obligation"}
+    from bounded.common import sr  # the tree under check (SYMMRAY_REPO)
+
+    hasher = sr.abelian_core.hasher
+    k1, k2 = (((-1, 2),), False, None), (((-2, 2),), False, None)
+    same_raw = hasher(k1) == hasher(k2)
+    i1, i2 = sr.BlockIndex({-1: 2}, dual=False), sr.BlockIndex({-2: 2}, dual=False)
+    same_ix = i1.hashkey() == i2.hashkey()
+    return {
+        "reproduced": bool(same_raw or same_ix),
+        "note": f"hasher gives equal keys for index contents differing by charge -1 / -2: raw tuples {same_raw}, BlockIndex.hashkey {same_ix}",
+        "input": {"key_1": repr(k1), "key_2": repr(k2)},
+    }
+
+
 REGISTRY = [
+    ("frames.key_covers", replay_key_covers),
     ("C13.svd_truncated.cutoff_threshold", replay_c13_threshold),
     ("C17.get_symmetry", replay_c17_get_symmetry),
     ("C17.", replay_c17_laws),
